@@ -56,6 +56,11 @@ CHECKS = {
    category="model_checking", design_ref="§5 C10",
    text="TLC computes the exact rational result of every conversion among K, degC, R, degF for every prefix pair and grid magnitude (incl. the absolute zeros and values below them) and the kelvin order of cross-scale pairs; the real library must agree within 1e-9 (Decimal included), return the asked unit, convert back, and order/compare consistently - in fresh forks and in shared processes in two orders.",
    note="Magnitude grid and prefixes as in evidence; equality ties across scales are not judged (rounding)."),
+
+ "C20": dict(engine="intern", technique="TLA+ spec InternAtomic.tla (linearizable get-or-create) as the deciding spec; call/return histories recorded from the REAL library under a line-granularity scheduler are validated by TLC (trace validation, code->spec); PlusCal mechanism model InternShipped.tla for non-vacuity",
+   category="model_checking", design_ref="§5 C20",
+   text="Schedules of two and three threads evaluating the same new dimension/prefix/unit/logarithm/logarithmic unit are explored systematically on the real code (all 1-preemption and sampled/all 2-preemption schedules at line granularity, sampled 3-thread and random schedules); every run's history and final table must be accepted by TLC as a behaviour of InternAtomic for some choice of linearization points. The PlusCal model of the shipped check-then-insert must violate C20_Single in TLC and the locked variant must satisfy it.",
+   note="Line granularity inside the measured package; lru_cache wrappers are opaque steps; a thread not back within 20 ms is treated as blocked (any synchronisation scheme is accepted, only the histories are judged)."),
 }
 BUILT = set(CHECKS)
 m = {"version": 1, "setup_cmd": "./setup.sh",
@@ -67,6 +72,7 @@ m = {"version": 1, "setup_cmd": "./setup.sh",
    {"name": "conversions", "path": "spec/Conversions.tla spec/MC_ConvNodes.tla spec/MC_ConvShapes.tla spec/MemoShipped.tla harness/conversions.py", "serves_properties": ["C04", "C05", "C07", "C08"], "kind_free_text": "TLC enumeration + exact oracle + replay on the real library (python and python -O)"},
    {"name": "quantities", "path": "spec/Num.tla spec/Quantities.tla spec/MC_Quantities.tla harness/quantities.py", "serves_properties": ["C03", "C06", "C11", "C12"], "kind_free_text": "TLC as exhaustive small-scope enumerator and exact-arithmetic oracle + replay on the real library"},
    {"name": "temperature", "path": "spec/Temp.tla spec/MC_Temp.tla harness/temperature.py", "serves_properties": ["C10"], "kind_free_text": "TLC exact affine oracle + replay"},
+   {"name": "intern", "path": "spec/InternAtomic.tla spec/MC_InternTrace.tla spec/InternShipped.tla harness/sched.py harness/intern.py", "serves_properties": ["C20"], "kind_free_text": "systematic schedule exploration of the real code + TLC trace validation (linearizability)"},
    {"name": "registry", "path": "spec/Registry.tla spec/MC_Registry.tla harness/registry.py harness/alpha.py", "serves_properties": ["C01", "C02", "C15"], "kind_free_text": "TLC model checking + spec->code replay of every transition (fork tree)"},
  ],
  "checks": [], "notes": "Every check: ./check <id> [--tier quick|thorough]; exit 0 held / 1 VIOLATION / 2 machinery failure. known_findings.txt lists genuine defects left unrepaired and repairs made.",
